@@ -49,9 +49,14 @@ Definition w_clash : file := one_site "/case.rs" SFunc (mk_site CAssign "val" [L
 Theorem C02_rs_hex_suffix_clash_fixed_regression : report MRs magic_actual w_cfg w_clash = spec_report MRs w_cfg w_clash.
 Proof. vm_compute. reflexivity. Qed.
 
+(* let N = 300;  (one upper-case letter) is exempt in TypeScript although N is no UPPER_CASE constant name (Python reports N = 300) *)
+Definition w_letter : file := one_site "/case.ts" STop (mk_site CAssign "N" [LInt RDec [[3;0;0]] false ""] 1).
+Theorem C02_ts_single_letter_refuted : report MTs magic_actual w_cfg w_letter <> spec_report MTs w_cfg w_letter.
+Proof. vm_compute. discriminate. Qed.
+
 (* each witness is an admissible input, and switching its flag off repairs it *)
 Theorem C02_witnesses_admissible :
-  forallb (file_good MPy) [w_bool; w_neg; w_ann; w_tuple] && forallb (file_good MTs) [w_hex_e; w_bigint; w_marker]
+  forallb (file_good MPy) [w_bool; w_neg; w_ann; w_tuple] && forallb (file_good MTs) [w_hex_e; w_bigint; w_marker; w_letter]
   && file_good MRs w_clash = true
   /\ report MPy (with_flag 0 magic_actual) w_cfg w_bool = spec_report MPy w_cfg w_bool
   /\ report MPy (with_flag 1 magic_actual) w_cfg w_neg = spec_report MPy w_cfg w_neg
@@ -60,5 +65,6 @@ Theorem C02_witnesses_admissible :
   /\ report MTs (with_flag 4 magic_actual) w_cfg w_hex_e = spec_report MTs w_cfg w_hex_e
   /\ report MTs (with_flag 5 magic_actual) w_cfg w_bigint = spec_report MTs w_cfg w_bigint
   /\ report MTs (with_flag 6 magic_actual) w_cfg w_marker = spec_report MTs w_cfg w_marker
-  /\ report MRs (with_flag 7 magic_actual) w_cfg w_clash = spec_report MRs w_cfg w_clash.
+  /\ report MRs (with_flag 7 magic_actual) w_cfg w_clash = spec_report MRs w_cfg w_clash
+  /\ report MTs (with_flag 8 magic_actual) w_cfg w_letter = spec_report MTs w_cfg w_letter.
 Proof. vm_compute. repeat split; reflexivity. Qed.
